@@ -408,6 +408,58 @@ func TestC06Dynamic(t *testing.T) {
 	}
 }
 
+// TestC06NameGraph: select lists whose fields name each other in every way a
+// small pool of names allows - a name defined by itself, through another name,
+// defined twice (the first definition counts), used in WHERE, ORDER BY and
+// GROUP BY. Whatever the verdict on such a statement, it must come as a value:
+// a definition cycle that slips through overflows the stack when it runs.
+func TestC06NameGraph(t *testing.T) {
+	names := []string{"a", "b", "c"}
+	rapid.Check(t, func(rt *rapid.T) {
+		n := rapid.IntRange(1, 5).Draw(rt, "nfields")
+		name := func(l string) string { return rapid.SampledFrom(names).Draw(rt, l) }
+		var fields []string
+		for i := 0; i < n; i++ {
+			var e string
+			switch rapid.IntRange(0, 9).Draw(rt, "form") {
+			case 0:
+				e = "value"
+			case 1:
+				e = "int(value)"
+			case 2:
+				e = name("bare")
+			case 3:
+				e = "upper(" + name("arg") + ")"
+			case 4:
+				e = name("l") + " + 'x'"
+			case 5:
+				e = name("l") + " + 1"
+			case 6:
+				e = "str(" + name("l") + " + " + name("r") + ")"
+			case 7:
+				e = "count(1)"
+			case 8:
+				e = "list(" + name("l") + ", key)[0]"
+			default:
+				e = name("l") + " = 'x'"
+			}
+			fields = append(fields, e+" as "+name("def"))
+		}
+		q := "select " + strings.Join(fields, ", ") + " where key ^= 'a'"
+		switch rapid.IntRange(0, 5).Draw(rt, "tail") {
+		case 0:
+			q += " & " + name("w") + " != 'q'"
+		case 1:
+			q += " order by " + name("o")
+		case 2:
+			q += " group by " + name("g")
+		case 3:
+			q += " & upper(" + name("w") + ") = 'A' order by " + name("o") + " desc limit 2"
+		}
+		c06Run(rt, &c06Case{Query: q, Pairs: lib.FixedHostileStore(rapid.IntRange(0, 5).Draw(rt, "store"))}, false, "name-graph")
+	})
+}
+
 // ---- termination on chains of named fields --------------------------------------
 
 // c06Chain builds `select <first> as a0, a0+a0 as a1, ..., a(n-1)+a(n-1) as an`
